@@ -202,6 +202,12 @@ def run(tier, seed, replay=None):
         "option_any": {"type": "object", "properties": {"o": {}}},
         "multi_type": {"type": ["string", "integer", "array"]},
         "default_any": {"type": "object", "properties": {"d": {"default": {"k": [1]}}}},
+        # fixed-size arrays around the length up to which std implements Default
+        "array31": {"type": "array", "items": {"type": "integer"}, "minItems": 31, "maxItems": 31},
+        "array32": {"type": "array", "items": {"type": "string"}, "minItems": 32, "maxItems": 32},
+        "array33": {"type": "array", "items": {"type": "integer"}, "minItems": 33, "maxItems": 33},
+        "array40_bool": {"type": "array", "items": {"type": "boolean"}, "minItems": 40, "maxItems": 40},
+        "tuple13": {"type": "array", "items": [{"type": "integer"}] * 13, "minItems": 13, "maxItems": 13},
         "date": {"type": "string", "format": "date"}, "date_time": {"type": "string", "format": "date-time"},
         "uuid": {"type": "string", "format": "uuid"},
         "pattern": {"type": "string", "pattern": "^[a-z]+$"},
